@@ -17,6 +17,11 @@ CONF = {
         mc=[('base', ENV_ALL, None), ('failure', ['Submit', 'RemoveApp', 'Down', 'Up', 'Freeze', 'RemoveServer', 'AddServer', 'Tick', 'SetPrio'], None)],
         gen=['base', 'failure', 'affinity', 'identity'],
         rule='a history counts when at least one cycle ends with an instance placed; distinct = distinct environment histories'),
+    'C02': dict(
+        inv=['InvC02', 'InvViews'],
+        mc=[('topology', ['Submit', 'RemoveApp', 'Down', 'Up', 'RemoveServer', 'AddServer', 'Tick'], None)],
+        gen=['topology', 'topology', 'base', 'affinity', 'identity'], probe=True,
+        rule='a history counts when a probe instance is submitted to a quiescent cell and the leaf-scan oracle finds an up server that takes it as it is; distinct = distinct environment histories'),
     'C03': dict(
         inv=['InvC03', 'InvViews'],
         mc=[('base', ['Submit', 'Move', 'Renew', 'Tick', 'Down', 'Freeze', 'Up', 'RemoveServer', 'AddServer', 'SetPrio'], None)],
@@ -33,6 +38,12 @@ CONF = {
             ('base', ['Submit', 'RemoveApp', 'SetCount', 'DelGroup', 'Blacklist', 'RemoveServer', 'AddServer', 'Renew', 'Tick'], [3, 6, 1])],
         gen=['identity', 'identity', 'base'],
         rule='a history counts when after some cycle an instance of an identity group holds an identity; distinct = distinct environment histories'),
+    'C06': dict(
+        inv=['InvC06', 'InvViews'],
+        mc=[('queue', ['Submit', 'SetPrio', 'Down'], [1, 2, 3, 4, 5, 7])],
+        mc_thorough=[('queue', ['Submit', 'RemoveApp', 'SetPrio', 'Down', 'Up', 'RemoveServer'], None)],
+        gen=['queue', 'base'], randscn=8,
+        rule='a history counts when a cycle sees a queue of >= 3 instances from >= 2 allocations with >= 2 distinct priorities; distinct = distinct (scenario, environment history) pairs'),
     'C07': dict(
         inv=['InvC07', 'InvViews'],
         mc=[('base', ['Submit', 'RemoveApp', 'SetPrio', 'Down', 'Up', 'RemoveServer', 'AddServer', 'Move'], None),
@@ -58,7 +69,7 @@ ASSUMPTIONS = [
 def _mc(ctx, prop):
     conf = CONF[prop]
     me, mcyc = (3, 2) if ctx.quick else (4, 2)
-    for scn, events, profs in conf['mc']:
+    for scn, events, profs in (conf['mc'] if ctx.quick else conf.get('mc_thorough', conf['mc'])):
         mod, cfg, files = sc.mc_files(scn, events, me, mcyc, invariants=conf['inv'], profs=profs,
                                       tag='_' + prop)
         res = tlc.mc(sc.SPEC_DIR, mod, cfg, extra_files=files, coverage=False,
@@ -78,7 +89,14 @@ def _gen(ctx, prop):
     n_tlc = 60 if ctx.quick else 1500
     n_rnd = 150 if ctx.quick else 4000
     out = []
-    for k, scn in enumerate(conf['gen']):
+    gens = list(conf['gen'])
+    rs = random.Random(ctx.seed * 65537)
+    for j in range(conf.get('randscn', 0) * (1 if ctx.quick else 8)):
+        name = 'rq%d' % j
+        sc.gen_queue_scn(rs, name)
+        for _ in range(25 if ctx.quick else 60):
+            out.append((name, 'rnd', sc.gen_random(sc.SCENARIOS[name], rs, rs.choice([6, 10, 14]))))
+    for k, scn in enumerate(gens):
         mod, cfg, files = sc.mc_files(scn, ENV_ALL, 9, 5, tag='_gen')
         behaviours, cmd = tlc.simulate(sc.SPEC_DIR, mod, cfg, num=n_tlc, depth=22,
                                        seed=ctx.seed * 31 + k, procs=6 if ctx.quick else 12,
@@ -97,7 +115,18 @@ def _gen(ctx, prop):
 
 def run(ctx, prop):
     cex = list(_mc(ctx, prop))
+    if prop == 'C02':
+        res = tlc.mc(sc.SPEC_DIR, 'MC_Buckets', 'MC_Buckets.cfg', coverage=True,
+                     extra_cfg_text='CONSTANT MaxOps = %d' % (5 if ctx.quick else 6),
+                     timeout=200 if ctx.quick else 900)
+        ctx.add_mc('Buckets.tla pruning soundness', res,
+                   need_actions=['AddServer', 'RemoveServer', 'SetNotUp', 'Put', 'Remove'])
+        if res['violated']:
+            ctx.log('Buckets.tla: Sound violated in the MODEL (design level); see trace clause C02.prune for the code')
     hist = [(s, 'cex', h + [('Cycle', [])]) for s, h in cex] + _gen(ctx, prop)
+    if CONF[prop].get('probe'):
+        rng = random.Random(ctx.seed * 9973)
+        hist = [(s, src, sc.probeify(h, rng, sc.SCENARIOS[s])) for s, src, h in hist]
     ctx.log('%d histories (%d from TLC)' % (len(hist), sum(1 for h in hist if h[1] != 'rnd')))
     traces = []
     by_scn = collections.defaultdict(list)
@@ -141,7 +170,7 @@ def judge(ctx, prop, traces, verdicts):
                     what='after %s at step %d of %s' % (line['ev'], v['i'], t['tid']),
                     replay_payload=dict(kind='sched_l1', property=prop, clause=f,
                                         scenario=t['tid'].split(':')[0],
-                                        history=t['history'][:v['i']], failed_step=v['i'])))
+                                        history=t['history'][:line.get('h', v['i'])], failed_step=v['i'])))
     samples = []
     for t in traces[:400]:
         if core.hist_hash(t['history']) in nontrivial:
